@@ -2903,7 +2903,10 @@ func marshalDefault(in []any) (x Stack, c Condition, err error) {
 	}
 
 	// De-envelope needlessly enveloped value
-	in = deenvelopeSingleStack(in)
+	if in = deenvelopeSingleStack(in); len(in) == 0 {
+		err = errorf("Empty input")
+		return
+	}
 
 	// The first string value in a stack indicates the
 	// appropriate type of stack or condition
@@ -2958,8 +2961,8 @@ func marshalDefault(in []any) (x Stack, c Condition, err error) {
 }
 
 func deenvelopeSingleStack(in []any) []any {
-	if len(in) == 1 {
-		for {
+	{
+		for len(in) == 1 {
 			if inner, ok := in[0].([]any); ok {
 				in = inner
 			} else {
